@@ -80,7 +80,14 @@ type lease4Out struct {
 func leaseScenario4(ph1, ph2 []replyTpl) (o lease4Out) {
 	runBubble(func(t *testing.T) {
 		conn := newLabConn()
-		c, err := nclient4.NewWithConn(conn, labHW, nclient4.WithTimeout(100*time.Millisecond), nclient4.WithRetry(1))
+		copts := []nclient4.ClientOpt{nclient4.WithTimeout(100 * time.Millisecond), nclient4.WithRetry(1)}
+		switch (len(ph1) + 2*len(ph2)) % 4 {
+		case 1:
+			copts = append(copts, nclient4.WithSummaryLogger())
+		case 3:
+			copts = append(copts, nclient4.WithDebugLogger())
+		}
+		c, err := nclient4.NewWithConn(conn, labHW, copts...)
 		if err != nil {
 			t.Fatal(err)
 		}
@@ -365,7 +372,17 @@ func lease6(r *Run) {
 	var resErr error
 	runBubble(func(t *testing.T) {
 		conn := newLabConn()
-		c, _ := nclient6.NewWithConn(conn, labHW, nclient6.WithTimeout(100*time.Millisecond), nclient6.WithRetry(1))
+		// the client's own configuration is part of "whatever": logging of dropped datagrams and message logging on or off
+		copts := []nclient6.ClientOpt{nclient6.WithTimeout(100 * time.Millisecond), nclient6.WithRetry(1)}
+		switch (len(ph1) + 2*len(ph2)) % 4 {
+		case 1:
+			copts = append(copts, nclient6.WithLogDroppedPackets())
+		case 2:
+			copts = append(copts, nclient6.WithLogDroppedPackets(), nclient6.WithSummaryLogger())
+		case 3:
+			copts = append(copts, nclient6.WithDebugLogger())
+		}
+		c, _ := nclient6.NewWithConn(conn, labHW, copts...)
 		mk := func(tp reply6Tpl, req *dhcpv6.Message) []byte {
 			mt := map[int]dhcpv6.MessageType{0: dhcpv6.MessageTypeAdvertise, 1: dhcpv6.MessageTypeReply, 2: dhcpv6.MessageTypeReconfigure,
 				3: dhcpv6.MessageTypeAdvertise, 4: dhcpv6.MessageTypeAdvertise, 5: dhcpv6.MessageTypeAdvertise, 6: dhcpv6.MessageTypeAdvertise}[tp.kind]
